@@ -626,12 +626,22 @@ package hashgraph
 //@ iface func (s Store) GetAllPeerSets() (map[int][]*peers.Peer, error)
 //@   modifies nothing
 
+// createRoot: the root of a participant is its head event and up to ROOT_DEPTH of its predecessors by index, oldest
+// first; every element is the frame event of a stored event (so it carries the predicates' values).
 //@ func (h *Hashgraph) createRoot(participant string, head string) (*Root, error)
-//@   trusted not verified (builds the root of fixed depth for a participant; C13 material); only its frame is used
+//@   safety on
 //@   requires h != nil && h.MemoOK()
 //@   modifies common.G_m(h.witnessCache), common.G_m(h.roundCache), common.G_m(h.stronglySeeCache), common.G_m(h.timestampCache), G_miss(h.Store)
-//@   ensures[fresh] ret1 == nil ==> ret0 != nil
+//@   ensures[fresh] ret1 == nil ==> ret0 != nil && __fresh(ret0)
 //@   ensures[memo]  h.MemoOK()
+//@   ensures[empty] ret1 == nil && head == "" ==> len(ret0.Events) == 0
+//@   ensures[head]  ret1 == nil && head != "" ==> len(ret0.Events) >= 1 && len(ret0.Events) <= 11 && ret0.Events[len(ret0.Events)-1] != nil && ret0.Events[len(ret0.Events)-1].Core == G_events(h.Store)[head]
+//@   ensures[cores] ret1 == nil ==> (forall k int :: 0 <= k && k < len(ret0.Events) ==> ret0.Events[k] != nil && ret0.Events[k].Core != nil)
+//@   loop 1 modifies common.G_m(h.witnessCache), common.G_m(h.roundCache), common.G_m(h.stronglySeeCache), common.G_m(h.timestampCache), G_miss(h.Store)
+//@   loop 2 modifies root.Events
+//@   loop 1 invariant[memo]  h.MemoOK()
+//@   loop 1 invariant[rev]   0 <= i && i <= 10 && len(reverseRootEvents) == i + 1 && reverseRootEvents[0] == headEvent && (forall k int :: 0 <= k && k < len(reverseRootEvents) ==> reverseRootEvents[k] != nil && reverseRootEvents[k].Core != nil)
+//@   loop 2 invariant[ins]   -1 <= i && i < len(reverseRootEvents) && len(root.Events) == len(reverseRootEvents) - 1 - i && (forall k int :: 0 <= k && k < len(root.Events) ==> root.Events[k] == reverseRootEvents[len(reverseRootEvents)-1-k])
 
 //@ func (h *Hashgraph) createFrameEvent(x string) (*FrameEvent, error)
 //@   safety on
